@@ -10,7 +10,7 @@ cp /repo/Cargo.lock "$WT/" 2>/dev/null
 if ! git -C "$WT" apply "$PATCH"; then echo "patch does not apply"; git -C /repo worktree remove --force "$WT"; exit 3; fi
 rc=0
 for id in "$@"; do
-  VERIF_REPO="$WT" /verif/check "$id" ${TIER:+--tier $TIER}
+  mkdir -p /tmp/rs_evidence; VERIF_REPO="$WT" VERIF_EVIDENCE=/tmp/rs_evidence /verif/check "$id" ${TIER:+--tier $TIER}
   r=$?; echo "== $id rc=$r"; [ $r -gt $rc ] && rc=$r
 done
 git -C /repo worktree remove --force "$WT"
